@@ -54,12 +54,13 @@ func runC16(t *testing.T, tape *sim.Tape, tier string) *Outcome {
 	var witness strings.Builder
 	var clients []*client
 	ops := map[int][]wl.StrOp{}
+	skipSel := 0 // 1 when every client's script starts with a SELECT that is not part of the history
 	// MSETNX probes its keys in Go map order and stops at the first existing one: the observed order is the run's witness
 	noteMsetnx := func(pipe int, key string) {
 		for j, c := range clients {
 			if c.P != nil && c.P.ID == pipe {
 				c.collect()
-				if i := len(c.Vals); i < len(ops[j]) && ops[j][i].Kind == "MSETNX" {
+				if i := len(c.Vals) - skipSel; i >= 0 && i < len(ops[j]) && ops[j][i].Kind == "MSETNX" {
 					fmt.Fprintf(&witness, "%d.%d:%s;", j, i, key)
 				}
 			}
@@ -114,9 +115,23 @@ func runC16(t *testing.T, tape *sim.Tape, tier string) *Outcome {
 	nkeys := 1 + tape.Draw(3, "nkeys")
 	intKeys := tape.Draw(2, "intkeys") == 0
 	addr := addrOf(plainPort)
+	// a third of the histories run in a database other than 0: every client first sends SELECT (not part of the history)
+	db := []int{0, 0, 1, 7}[tape.Draw(4, "db")]
+	skip := 0
+	if db != 0 {
+		skip = 1
+		skipSel = 1
+		o.stat("histories_in_a_selected_database", 1)
+	}
+	// a third of the runs switch on the scheduling points inserted in front of every lock acquisition and
+	// sync.Map access of the framework and the example store (finer interleavings than the hand-placed yields)
+	cl.AutoYields = tape.Draw(3, "autoyields") == 2
 	for j := 0; j < nclients; j++ {
 		n := 1 + tape.Draw(maxOps, "nops")
 		var items [][]byte
+		if db != 0 {
+			items = append(items, resp.Cmd("SELECT", fmt.Sprint(db)))
+		}
 		for i := 0; i < n; i++ {
 			op := genStrOp(tape, nkeys, j, i, intKeys)
 			ops[j] = append(ops[j], op)
@@ -136,7 +151,7 @@ func runC16(t *testing.T, tape *sim.Tape, tier string) *Outcome {
 		c.Lockstep = true
 		clients = append(clients, c)
 	}
-	// one history in six is cut by a Restart at a seed-chosen moment: commands already inside a handler call
+	// a third of the histories run in a selected database; a third of the runs switch on the scheduling points inserted by source rewriting in front of every lock acquisition and sync.Map access; one history in six is cut by a Restart at a seed-chosen moment: commands already inside a handler call
 	// complete after their connection was closed, and clients of the restarted server run against them
 	if tape.Draw(6, "restart") == 5 {
 		cl.lifecycle("Restart")
@@ -144,6 +159,9 @@ func runC16(t *testing.T, tape *sim.Tape, tier string) *Outcome {
 		for j := nclients; j < nclients+1+tape.Draw(2, "nlate"); j++ {
 			n := 1 + tape.Draw(maxOps, "nops")
 			var items [][]byte
+			if db != 0 {
+				items = append(items, resp.Cmd("SELECT", fmt.Sprint(db)))
+			}
 			for i := 0; i < n; i++ {
 				op := genStrOp(tape, nkeys, j, i, intKeys)
 				ops[j] = append(ops[j], op)
@@ -167,13 +185,17 @@ func runC16(t *testing.T, tape *sim.Tape, tier string) *Outcome {
 		if c.BadReply != nil {
 			o.violate("c16:reply-stream", "client %d: %v", j, c.BadReply)
 		}
-		for i := range c.CallSeq {
-			op := porcupine.Operation{ClientId: j, Input: ops[j][i], Call: int64(c.CallSeq[i]), Return: big, Output: wl.StrOut{}}
+		for k := range c.CallSeq {
+			i := k - skip // the leading SELECT is not an operation of the history
+			if i < 0 {
+				continue
+			}
+			op := porcupine.Operation{ClientId: j, Input: ops[j][i], Call: int64(c.CallSeq[k]), Return: big, Output: wl.StrOut{}}
 			desc := "pending"
-			if i < len(c.Vals) {
-				v := c.Vals[i]
+			if k < len(c.Vals) {
+				v := c.Vals[k]
 				op.Output = wl.StrOut{Reply: &v}
-				op.Return = int64(c.RetSeq[i])
+				op.Return = int64(c.RetSeq[k])
 				desc = v.String()
 			}
 			hist = append(hist, op)
@@ -209,7 +231,7 @@ func init() {
 	register(&Check{
 		ID: "C16", Bubble: true, Run: runC16,
 		Runs:   map[string]int{"quick": 30000, "thorough": 1000000},
-		Rule:   "a case is one concurrent history: 2..4 (thorough ..8) lock-step clients x 1..4 (thorough ..6) operations over 1..3 keys from GET/SET/SETNX/GETSET/INCR/DECR/INCRBY/DECRBY/APPEND/MSETNX/DEL with unique written values (one command in eight framed as an array nested in a one-element array), against the reference store (every handler-call entry is a scheduling point) or the bundled example store (every record access is a scheduling point); one history in six is cut by a Restart at a seed-chosen moment (operations in flight stay pending, 1..2 clients of the restarted server follow); invocation/response stamped with global event sequence numbers; checked with porcupine against a sequential string model; distinct = distinct event-log hashes; non-trivial = at least two operations",
+		Rule:   "a case is one concurrent history: 2..4 (thorough ..8) lock-step clients x 1..4 (thorough ..6) operations over 1..3 keys from GET/SET/SETNX/GETSET/INCR/DECR/INCRBY/DECRBY/APPEND/MSETNX/DEL with unique written values (one command in eight framed as an array nested in a one-element array), against the reference store (every handler-call entry is a scheduling point) or the bundled example store (every record access is a scheduling point); a third of the histories run in a selected database; a third of the runs switch on the scheduling points inserted by source rewriting in front of every lock acquisition and sync.Map access; one history in six is cut by a Restart at a seed-chosen moment (operations in flight stay pending, 1..2 clients of the restarted server follow); invocation/response stamped with global event sequence numbers; checked with porcupine against a sequential string model; distinct = distinct event-log hashes; non-trivial = at least two operations",
 		Real:   []string{"redis.Server accept loop, connection goroutines, dispatch, string executors and derived commands", "examples/go-redisd/server string store (half of the runs)"},
 		Stub:   []string{"network: simulated", "handler (other half): reference store with atomic primitives", "oracle: porcupine v1.3.0 + sequential string model"},
 		Assume: []string{"histories are capped at 48 operations; porcupine timeouts (10 s) are counted as inconclusive and never reported"},
